@@ -319,6 +319,18 @@ def leaf(value, via=False):
     return {"l": value, "via": bool(via)}
 
 
+def cel_leaf(value, cel: str):
+    """a leaf written as the CEL expression `cel`; `value` is what it comes to once `convert_bools` has turned
+    the CEL value into a plain one (what the model sees).  A static ResourceTemplate writes `value` itself."""
+    return {"l": value, "via": False, "cel": cel}
+
+
+def strip_cel(t):
+    if "n" in t:
+        return {"n": {k: strip_cel(v) for k, v in t["n"].items()}}
+    return {k: v for k, v in t.items() if k != "cel"}
+
+
 def tree_merge(a, b):
     """b laid over a (definition-level merge of two trees: nodes merge, anything else replaces)"""
     if a is not None and "n" in a and "n" in b:
@@ -341,6 +353,8 @@ def tree_spec(t, inputs: dict, tag: str):
     if "n" in t:
         return {k: tree_spec(v, inputs, f"{tag}_{k.replace('-', '_').replace('.', '_').replace('/', '_')}")
                 for k, v in t["n"].items()}
+    if t.get("cel"):
+        return t["cel"]
     if t.get("via"):
         key = f"v_{tag}"
         inputs[key] = copy.deepcopy(t["l"])
@@ -380,6 +394,11 @@ EDITS = {
     "verkindNonStr": lambda via: node(apiVersion=leaf(3, via), kind=leaf({"k": 1}, via)),
     "ver": lambda via: node(apiVersion=leaf("verif.test/v0alpha1", via)),     # another version of the same kind
     "kindOnly": lambda via: node(kind=leaf("EvilKind", via)),
+    # a CEL map whose BYTES key has the base64 text "name": distinct from the text key `name` while the kind/name
+    # overlay is applied, folded onto it when `convert_bools` turns the keys into text (F18)
+    "bytesKeyName": lambda via: node(metadata=cel_leaf(
+        {"name": "evil-name", "labels": {"x": "y"}},
+        '={"name": "kept-name", "labels": {"x": "y"}, b"\\x9d\\xa9\\x9e": "evil-name"}')),
 }
 
 
@@ -408,6 +427,8 @@ def layer_tree(layer: str, prog: dict):
     for e in edits:
         via = e.get("via", False) and not (layer == "template" and prog.get("tmplForm") == "ref")
         t = tree_merge(t, EDITS[e["kind"]](via))
+    if layer == "template" and prog.get("tmplForm") == "ref":
+        t = strip_cel(t)
     return t
 
 
